@@ -29,6 +29,9 @@ Verdict(r) ==
      \cup If(~SamePartition(m, col(1), [a \in Nodes(m) |-> m.atoms[a].id]), "morgan-radius-1")
      \cup If(\E rad \in 1..(Len(r.mcol) - 1) : ~RefinesCorrectly(m, col(rad), col(rad + 1)), "morgan-refinement")
      \cup If(SetOf(r.mh) # UNION { SetOf(r.mtable[rad]) : rad \in r.lo..r.hi }, "morgan-hash-set-vs-radii")
+     \* iterated identifiers: the identifier of radius r+1 is a hash over the radius-r identifier and the neighbourhood, so (no collisions
+     \* assumed) no identifier of one radius is an identifier of another, also for an atom without neighbours
+     \cup If(\E r1, r2 \in 1..Len(r.mtable) : r1 < r2 /\ SetOf(r.mtable[r1]) \cap SetOf(r.mtable[r2]) # {}, "morgan-identifier-not-iterated")
      \cup If(SetOf(r.lh2) # SetOf(r.lh), "linear-depends-on-numbering")
      \cup If(SetOf(r.mh2) # SetOf(r.mh), "morgan-depends-on-numbering")
      \cup If(SetOf(r.lbits) # ActiveBits(r.lhb, r.log, r.nactive), "linear-folding")
